@@ -433,7 +433,7 @@ func (e *env[E, P, D, T]) cell(sz sizeSpec, custom bool) {
 		}
 		vecs = keep
 	}
-	buf := make([]E, n)
+	buf := e.work(n)
 	doms := []struct {
 		d   *D
 		pre bool
@@ -603,7 +603,7 @@ func (e *env[E, P, D, T]) roundTrips(dP, dN *D, lg int, rng *gen.Rng, shiftKind 
 		x[i] = e.rnd(rng)
 	}
 	orig := e.lib(x)
-	buf := make([]E, n)
+	buf := e.work(n)
 	tasks := nbFull
 	if e.mode == "sched" || e.mode == "race" {
 		tasks = nbPar
@@ -661,7 +661,7 @@ func (e *env[E, P, D, T]) sweepTasks(dP, dN *D, w, s T, lg int, rng *gen.Rng) {
 	}
 	v := vecT[T]{"random#sweep", "dense", x, true, -1, A.Zero()}
 	xNat, xRev := e.lib(x), e.lib(odft.Permute(x))
-	buf := make([]E, n)
+	buf := e.work(n)
 	for _, coset := range []bool{false, true} {
 		sh := A.One()
 		if coset {
